@@ -123,6 +123,7 @@ func (f *frame) evalCommon(in ssa.Instruction) bool {
 			a := x.addrOf(pv, in.Type())
 			t := x.loadAddr(f.m(), a)
 			if !f.pure {
+				x.critCheck(f.st, a, in.Pos())
 				t = x.define(x.fn.Name()+"_"+in.Name(), x.X.sortOf(in.Type()), t)
 				x.vals[in] = Val{T: t}
 				if a.Kind != aCell {
